@@ -168,6 +168,33 @@ func (g *Gen) atStatements(anchor, when string, in ssa.CallInstruction, val ssa.
 	}
 }
 
+// entryAts executes ghost statements anchored at the function's entry.
+func (g *Gen) entryAts() {
+	for _, a := range g.S.Ats {
+		if a.Func != g.key || a.Anchor != "entry" {
+			continue
+		}
+		g.atSeen[a] = true
+		vis := len(a.Props) == 0
+		for _, p := range a.Props {
+			if p == g.prop || g.prop == "" {
+				vis = true
+			}
+		}
+		if !vis || a.Kind != "ghost" {
+			continue
+		}
+		env := g.fnEnv(nil)
+		h, _, _ := g.ghostHeap(a.LHS.Name)
+		if h == "" {
+			panic(specErr(a.LHS, "%s is not a ghost field", a.LHS.Name))
+		}
+		ref := g.trans(a.LHS.Args[0], env)
+		rhs := g.trans(a.E, env)
+		g.assignHeap(h, "(store "+g.heap(h)+" "+ref.T+" "+rhs.T+")")
+	}
+}
+
 // atEnv: parameters, locals visible at the call instruction, and (after) the call's results.
 func (g *Gen) atEnv(in ssa.CallInstruction, val ssa.Value, ce callee, after bool) *Env {
 	env := g.fnEnv(nil)
